@@ -417,7 +417,7 @@ impl Receiver {
         }
 
         loop {
-            self.credits.return_flush().await;
+            self.credits.return_flush(&self.tx).await;
 
             // Message that started while the previous one was being streamed.
             match self.restarted.take() {
@@ -504,7 +504,7 @@ impl Receiver {
         }
 
         loop {
-            self.credits.return_flush().await;
+            self.credits.return_flush(&self.tx).await;
 
             // Message that started while the previous one was being streamed.
             match self.restarted.take() {
